@@ -349,13 +349,13 @@ var c11RecTypes = []string{
 	"type T chan T", "type T interface{ M(T) }\ntype U struct{}\nfunc (U) M(T) {}", "type T struct{ T }", "type T struct{ *T }", "type A struct{ B }\ntype B struct{ *A }", "type T [unsafeSizeof]T",
 	"type T struct{ a [1]T }", "type T struct{ a [0]T }", "type T func() (T, T)", "type T interface{ M() interface{ N() T } }", "type T struct{ next *T; val interface{} }",
 	"type A interface{ B }\ntype B interface{ A }", "type A interface{ M() B }\ntype B interface{ N() A }", "type T map[string]*T", "type T []*T", "type T struct{ f [2]*T }",
-	"type T[P any] struct{ t *T[P] }", "type T func(...T)", "type T [len(x)]int\nvar x T", "const c = len(T{})\ntype T [c]int",
+	"type T[P any] struct{ t *T[P] }", "type T interface{}", "type T func(...T)", "type T [len(x)]int\nvar x T", "const c = len(T{})\ntype T [c]int",
 }
 
 var c11RecUses = []string{
 	"var x T; _ = x", "var x T; println(x)", "var x, y T; println(x == y)", "x := new(T); println(x != nil)", "var x []T; x = append(x, T{}); println(len(x))",
 	"var e interface{} = T{}; println(e)", "var x T; y := x; _ = y", "x := T{}; x = append(x, x); x[0] = x; println(len(x))", "x := T{}; x[\"a\"] = x; println(len(x), x)",
-	"var x T; x = &x; println(x == *x)", "var x T; x = &x; println(***x == x)", "x := make(T, 1); x[0] = x; println(x)", "x := &T{}; x.p = x; println(x)", "x := &T{}; x.next = x; x.val = x; println(x)",
+	"var x T; x = &x; println(x == *x)", "var x T; x = &x; println(***x == x)", "var x T; x = &x; println(x)", "var x T; x = &x; panic(x)", "x := make(T, 1); x[0] = x; println(x)", "x := &T{}; x.p = x; println(x)", "x := &T{}; x.next = x; x.val = x; println(x)",
 	"x := &T{}; x.next = x; x.val = x; y := &T{}; y.next = y; y.val = y; println(*x == *y)", "var a A; var b B; _, _ = a, b", "var a A; println(a)", "a := A{}; b := B{}; a = append(a, b); b = append(b, a); println(len(a), len(b))",
 	"var e interface{} = T{}; _, ok := e.(T); println(ok)", "m := map[interface{}]int{}; var x T; m[x] = 1; println(len(m))", "var x T; x = func(T) T { return x }; println(x(x) == nil)",
 	"var x T; panic(x)", "var x T; x = &x; panic(x)", "x := T{}; x[\"a\"] = x; panic(x)", "x := make(T, 1); x[0] = x; panic(x)", "x := &T{}; x.next = x; x.val = x; panic(x)", "x := &T{}; x.next = x; x.val = x; var e interface{} = x; println(e == e)",
